@@ -7,6 +7,9 @@ def design(ctx, thorough):
     ctx.tlc_expect_violation("", "MC_RxPath", "MC_RxPath_Unjudged.cfg",
                              "outside the judged domain a response delivering nothing gets no final DONE (stale lastPkgRx)",
                              workers=8)
+    ctx.tlc_expect_violation("", "MC_RxPath", "MC_RxPath_Wedge.cfg",
+                             "spec growth: a malformed package is re-parsed with every later packet until the bounded error queue is full and the reader blocks",
+                             workers=4)
 
 
 def reader_design(ctx):
